@@ -12,6 +12,11 @@ Decided (necessary conditions of the sum identity; the numeric content is not de
           tolerance (the tolerance of the test is resolved through constants and the helper's default).
   C01.S   sign mirror: the supply path negates the request in and every cell and the remainder
           out; the supply branch of _inclusion_exclusion_bounds is the dual of the consume branch.
+  C01.SGN sign of the set-points: what a group's cell receives on top of its minimum power (its entry of the
+          reserve table) never goes negative -- during deficit covering a donor's entry becomes zero or is
+          reduced by an amount that the same pass compared with the entry's *current* value (a value read
+          from the table before its last change is stale); decided per symbolic path of the covering
+          loop (shared with C02.BOOK).
   C01.B   reported == commanded: the map sent to the API is the distribution itself, the
           reported distributed power is request - remainder, a call booked as failed always
           has its set-point booked as failed power (and vice versa), and the wait over the set_power
@@ -1542,6 +1547,61 @@ def _check_wait_all(run: Run, prog: Program, sd0: FuncInfo, sd: FuncInfo) -> Non
                            "request timeout expires")
 
 
+def check_reserve_sign(run: Run, prog: Program) -> None:
+    """C01.SGN -- "every set-point has the sign of the request or is zero".
+
+    A group's set-point is its minimum power plus its entry of the reserve table (handed to the cell, and booked,
+    by the loop L1 pairs).  The entry is created non-negative (C02.RES: within [0, cap - min_power]); deficit covering
+    then takes from it.  A necessary condition of the sign clause is that no store of the covering makes an entry
+    negative: the entry becomes zero, or changes by an amount d for which the same pass through the covering loop
+    established `-d <= entry` against the entry's CURRENT value -- the value of this very item as read from the table
+    in this pass.  A donor value read before the table was last changed (a donor list sorted once before the loop
+    over the deficits, a maximum looked up outside the covering loop, a copy of the table consulted while the table
+    itself is reduced) is stale once an earlier deficit has consumed part of it: the guard then licenses a reduction
+    the entry no longer covers, the entry goes negative and the hand-out loop adds the negative reserve to the
+    donor's cell.  With min power 0 (no exclusion bound) the donor is commanded against the sign of the request; the
+    ledger follows the cell, so the sum identity (L1 / L3) still holds and only this clause sees it.
+
+    The decision is the per-path term comparison of C02.BOOK's deficit-covering clause (symbolic paths of the loop
+    body, item snapshots `C(*max(T.items()))` / `k, v = max(T.items())` normalised to the entry they denote), run
+    on a scratch report; each store into the reserve table during the covering is one instance here."""
+    from ._c02_util import at
+    from .c02 import check_book
+
+    facts: list[dict[str, Any]] = []
+    scratch = Run("C02", run.tier, run.seed)
+    try:
+        check_book(scratch, prog, facts)
+    except AnalysisError as exc:
+        if run.violations:
+            run.note(f"C01.SGN not decided on this tree (already reported as violating): {exc}")
+            return
+        raise AnalysisError(f"C01.SGN: the deficit covering cannot be read: {exc}") from exc
+    if not facts:
+        if run.violations:
+            return
+        why = f": [{scratch.violations[0].rule}] {scratch.violations[0].message[:200]}" if scratch.violations else ""
+        raise AnalysisError("C01.SGN: no store into the reserve table during deficit covering was found" + why)
+    for f in facts:
+        fn: FuncInfo = f["function"]
+        cmp_ = ", ".join(f"`{x}`" for x in f["compared"]) or "nothing"
+        run.check(f["ok"], "C01.SGN", fn.qual, f"{f['store']} (deficit covering)",
+                  f"`{f['store']}` changes the entry `{f['entry']}` of the reserve table `{f['table']}` by `{f['change']}`, and "
+                  f"this pass through the covering loop compared that amount with {cmp_} -- not with the entry's current "
+                  "value (the item as read from the table in this very pass).  A donor value read before the table was "
+                  "last changed -- a donor list sorted once before the loop over the deficits, a maximum looked up outside "
+                  "the covering loop, a copy of the table -- is stale as soon as an earlier deficit has taken part of it: "
+                  "the second deficit is covered from reserve that is already gone, the donor's entry goes negative, and "
+                  "the hand-out loop adds that negative reserve to the donor's allocation (and books it, so set-points + "
+                  "remainder still equal the request).  A donor without exclusion bound (min power 0) ends with a "
+                  "set-point of the opposite sign to the request, e.g. {2: 863.9, 4: 300, 6: -263.9} for +900 W; with a "
+                  "multi-inverter donor the negative power leaks into the remainder.  Excluded alike: dropping the "
+                  "guard, comparing with another item's value, comparing after the entry was already reduced",
+                  node=at(f["lineno"]), file=fn.file, path=f["path"].describe(),
+                  instance=f"{fn.qual}: deficit covering line {f['lineno']}: `{f['store']}` keeps the reserve entry non-negative "
+                           "(zero, or reduced by an amount compared with the entry's current value)")
+
+
 def first_text(n: ast.AST, limit: int = 110) -> str:
     t = " ".join(u(n).split())
     return t if len(t) <= limit else t[: limit - 3] + "..."
@@ -1601,6 +1661,16 @@ CONTROLS = [
     ("set_power wait ends at the first failed call",
      "microgrid._power_distributing._component_managers._battery_manager",
      "return_when=asyncio.ALL_COMPLETED", "return_when=asyncio.FIRST_EXCEPTION", "C01.B"),
+    ("largest donor looked up once per deficit, not once per take", MOD,
+     "            while not is_close_to_zero(deficit) and deficit < 0.0:\n                if not excess_reserved:\n"
+     "                    break\n                largest = _Allocation(\n"
+     "                    *max(excess_reserved.items(), key=lambda item: item[1])\n                )\n",
+     "            if not excess_reserved:\n                break\n            largest = _Allocation(\n"
+     "                *max(excess_reserved.items(), key=lambda item: item[1])\n            )\n"
+     "            while not is_close_to_zero(deficit) and deficit < 0.0:\n", "C01.SGN"),
+    ("donor reduced without comparing the deficit with its reserve", MOD,
+     "                if largest.power >= -deficit or math.isclose(largest.power, -deficit):\n",
+     "                if largest.power >= 0.0 or math.isclose(largest.power, -deficit):\n", "C01.SGN"),
     ("set_power wait ends at the first finished call",
      "microgrid._power_distributing._component_managers._battery_manager",
      "            return_when=asyncio.ALL_COMPLETED,\n", "            return_when=\"FIRST_COMPLETED\",\n", "C01.B"),
@@ -1613,6 +1683,7 @@ def run_rules(run: Run, prog: Program) -> None:
     check_l3(run, prog, ledgers)
     check_sign(run, prog)
     check_b(run, prog)
+    check_reserve_sign(run, prog)
 
 
 def check(run: Run, prog: Program, tier: str) -> str:
@@ -1624,6 +1695,9 @@ def check(run: Run, prog: Program, tier: str) -> str:
              "for requests that are zero to float tolerance")
     run.rule("C01.S", "supply path: request negated in, every cell and the remainder negated out; "
              "supply bounds are the dual of the consume bounds")
+    run.rule("C01.SGN", "deficit covering never makes a reserve entry negative: an entry becomes zero or is reduced by an "
+             "amount the same pass compared with the entry's current value (no stale donor snapshot), so no set-point "
+             "falls below its minimum power / gets the opposite sign")
     run.rule("C01.B", "reported distributed power == request - remainder; API map == distribution; the wait "
              "over the set_power tasks is ALL_COMPLETED-or-timeout")
     run_rules(run, prog)
@@ -1632,11 +1706,13 @@ def check(run: Run, prog: Program, tier: str) -> str:
     run.floor("C01.L3", 7)
     run.floor("C01.S", 9)
     run.floor("C01.B", 7)
+    run.floor("C01.SGN", 2)
     from ..engine.controls import run_controls
 
     run_controls(run, CONTROLS, run_rules, tier)
     run.undecided("that proportional shares, min-power reservations and deficit covering keep "
-                  "Σcells <= request, the sign of each set-point and |remainder| <= |request| "
+                  "Σcells <= request, the sign of each set-point beyond the non-negativity of the reserve "
+                  "entries (C01.SGN) and |remainder| <= |request| "
                   "(numeric content; needs relational invariants over dict-indexed cells)")
     run.assume("the ledger invariant mirror = Σcells ∧ complement = request - Σcells is preserved "
                "by every statement iff L1 holds per suite (algebraic oracle)")
